@@ -8,14 +8,27 @@ From Gen Require Import Leaf_gen.
 #[local] Open Scope Z_scope.
 Transparent two32 two63 two64 two31.
 
-(* proof style for the round-3 lemmas: one case per comparison of either side, comparisons turned
-   into (in)equalities, equal branches by reflexivity, contradictory ones by lia *)
+(* Proof style (one set of tactics for the whole file, none of them mentions a Gen name): unfold
+   both sides; give every wrapped sub-term its range; ONE CASE PER BOOLEAN ATOM (condition of an
+   `if`, comparison) of either side, whatever shape the conditions are combined in; comparisons
+   become (in)equalities; wrap-arounds that the case's facts exclude are removed; equal leaves by
+   reflexivity, contradictory cases and arithmetic leaves by lia.  A rewrite of the Go code that
+   keeps its meaning (negated or mirrored comparison, early return for else, named or inlined
+   sub-expression, merged or split condition) changes the generated term, not the case analysis. *)
 Ltac split_ifs :=
   repeat match goal with |- context [if ?c then _ else _] => destruct c eqn:? end.
+Ltac cmp_atoms :=
+  repeat match goal with
+  | |- context [?a <? ?b] => destruct (a <? b) eqn:?
+  | |- context [?a <=? ?b] => destruct (a <=? b) eqn:?
+  | |- context [?a =? ?b] => destruct (a =? b) eqn:?
+  end.
 Ltac bool_facts :=
   repeat match goal with
   | H : negb _ = true |- _ => apply negb_true_iff in H
   | H : negb _ = false |- _ => apply negb_false_iff in H
+  | H : andb _ _ = true |- _ => apply andb_true_iff in H; destruct H
+  | H : orb _ _ = false |- _ => apply orb_false_iff in H; destruct H
   | H : (_ <? _) = true |- _ => apply Z.ltb_lt in H
   | H : (_ <? _) = false |- _ => apply Z.ltb_ge in H
   | H : (_ <=? _) = true |- _ => apply Z.leb_le in H
@@ -23,6 +36,26 @@ Ltac bool_facts :=
   | H : (_ =? _) = true |- _ => apply Z.eqb_eq in H
   | H : (_ =? _) = false |- _ => apply Z.eqb_neq in H
   end.
+(* ranges of the wrapped sub-terms and of the remainders in the goal *)
+Ltac pose_ranges :=
+  repeat match goal with
+  | |- context [u64 ?x] =>
+      lazymatch goal with H : in_u64 (u64 x) |- _ => fail | _ => pose proof (u64_range x) end
+  end;
+  repeat match goal with
+  | Hb : 0 < ?b |- context [?a mod ?b] =>
+      lazymatch goal with H : 0 <= a mod b < b |- _ => fail | _ => pose proof (Z.mod_pos_bound a b Hb) end
+  end.
+Ltac unfold_ranges := unfold in_u64, in_u32, in_i64, two64, two63, two32 in *.
+(* remove the wrap-arounds the facts at hand exclude *)
+Ltac drop_wraps :=
+  repeat first [ rewrite u64_id by (unfold_ranges; lia) | rewrite i64_id by (unfold_ranges; lia) ].
+Ltac leaf_close :=
+  first [ reflexivity | discriminate | exfalso; lia | lia | f_equal; lia | exfalso; congruence ].
+(* boolean-valued and if-valued goals over integer comparisons *)
+Ltac leaf_cases :=
+  cbv zeta; pose_ranges; split_ifs; cmp_atoms; bool_facts; cbn [negb andb orb];
+  unfold_ranges; drop_wraps; leaf_close.
 
 Lemma in_u64_bounds x : in_u64 x -> 0 <= x < 18446744073709551616.
 Proof. unfold in_u64, two64. auto. Qed.
@@ -31,49 +64,45 @@ Proof. unfold in_u64, two64. auto. Qed.
 Lemma calculateStartTime_ok bl now : in_u64 now -> 0 < bl ->
   calculateStartTime bl now = bstart bl now.
 Proof.
-  intros Hn Hb. unfold calculateStartTime, bstart. apply u64_id.
-  pose proof (in_u64_bounds _ Hn). unfold in_u64, two64.
-  pose proof (Z.mod_pos_bound now bl Hb). pose proof (Z.mod_le now bl ltac:(lia) Hb). lia.
+  intros Hn Hb. unfold calculateStartTime, bstart. cbv zeta.
+  pose proof (Z.mod_pos_bound now bl Hb). pose proof (Z.mod_le now bl ltac:(unfold in_u64 in Hn; lia) Hb).
+  unfold_ranges. drop_wraps. leaf_close.
 Qed.
 
 (* (la *LeapArray) calculateTimeIdx(now uint64) int, la.array.length = n *)
 Lemma calculateTimeIdx_ok n bl now : 0 <= now < two63 -> 0 < bl -> 0 < n ->
   calculateTimeIdx n bl now = tidx n bl now.
 Proof.
-  intros Hn Hb Hl. unfold calculateTimeIdx, tidx.
+  intros Hn Hb Hl. unfold calculateTimeIdx, tidx. cbv zeta.
   assert (Hq : 0 <= now / bl <= now).
   { split; [apply Z.div_pos; lia|]. apply Z.div_le_upper_bound; nia. }
-  rewrite i64_id by (unfold in_i64, two63 in *; lia).
-  apply Z.rem_mod_nonneg; lia.
+  unfold_ranges. drop_wraps. apply Z.rem_mod_nonneg; lia.
 Qed.
 
 (* (la *LeapArray) isBucketDeprecated(now, ww): la.intervalInMs = n * bl *)
 Lemma isBucketDeprecated_ok n bl now ws :
   isBucketDeprecated (n * bl) now ws = g_deprecated n bl now ws.
-Proof. reflexivity. Qed.
+Proof. unfold isBucketDeprecated, g_deprecated. leaf_cases. Qed.
 
 (* (m *SlidingWindowMetric) getBucketStartRange(timeMs) *)
 Lemma getBucketStartRange_ok vitv bl t : in_u64 t -> 0 < bl -> in_u32 vitv ->
   getBucketStartRange vitv bl t = v_range bl vitv t.
 Proof.
   intros Ht Hb Hv. unfold getBucketStartRange, v_range.
-  rewrite (calculateStartTime_ok bl t Ht Hb). cbv zeta.
-  destruct (vitv <? u64 (bstart bl t + bl)) eqn:E; [|reflexivity].
-  f_equal. apply u64_id. pose proof (u64_range (bstart bl t + bl)) as Hr.
-  unfold in_u64, in_u32, two64, two32 in *. apply Z.ltb_lt in E. lia.
+  rewrite !(calculateStartTime_ok bl t Ht Hb). leaf_cases.
 Qed.
 
 (* CheckValidityForReuseStatistic: nil exactly when the model's check_reuse holds *)
 Lemma checkValidityForReuseStatistic_ok vn vitv pn pitv :
   (checkValidityForReuseStatistic vitv pitv pn vn =? 0) = check_reuse vn vitv pn pitv.
 Proof.
-  unfold checkValidityForReuseStatistic, check_reuse.
-  destruct (vitv =? 0); [reflexivity|]; destruct (vn =? 0); [reflexivity|];
-  destruct (vitv mod vn =? 0); [|reflexivity]; cbn [orb negb andb];
-  destruct (pitv =? 0); [reflexivity|]; destruct (pn =? 0); [reflexivity|];
-  destruct (pitv mod pn =? 0); [|reflexivity]; cbn [orb negb andb];
-  destruct (pitv mod vitv =? 0); [|reflexivity]; cbn [orb negb andb];
-  destruct ((vitv / vn) mod (pitv / pn) =? 0); reflexivity.
+  (* purely boolean: name the result, one case per atom of either side (the test of the result
+     included), then the result is a constant; no arithmetic on the remainders is needed *)
+  remember (checkValidityForReuseStatistic vitv pitv pn vn) as k eqn:Hk. revert Hk.
+  unfold checkValidityForReuseStatistic, check_reuse. cbv zeta.
+  cmp_atoms; cbn [negb andb orb]; intros Hk; subst k;
+    first [ reflexivity | discriminate | exfalso; congruence
+          | repeat match goal with H : (_ =? _) = _ |- _ => revert H end; vm_compute; congruence ].
 Qed.
 
 (* which error: GlobalStatisticNonReusableError (code 3) exactly when both parameter pairs are
@@ -84,11 +113,8 @@ Lemma checkValidityForReuseStatistic_code vn vitv pn pitv :
   ((pitv =? 0) || (pn =? 0) || negb (pitv mod pn =? 0) = false) /\
   (negb (pitv mod vitv =? 0) || negb ((vitv / vn) mod (pitv / pn) =? 0) = true).
 Proof.
-  unfold checkValidityForReuseStatistic.
-  destruct (vitv =? 0); destruct (vn =? 0); destruct (vitv mod vn =? 0);
-  destruct (pitv =? 0); destruct (pn =? 0); destruct (pitv mod pn =? 0);
-  destruct (pitv mod vitv =? 0); destruct ((vitv / vn) mod (pitv / pn) =? 0);
-  cbn; intuition (try discriminate; try lia).
+  unfold checkValidityForReuseStatistic. cbv zeta.
+  cmp_atoms; cbn [negb andb orb]; intuition (try discriminate; try lia).
 Qed.
 
 (* ---- round 3: the float / integer arithmetic of the statistic-node getters -------------------
